@@ -23,19 +23,36 @@ def remaining(p):
     return 0
 
 
-def _enter(p, rank, delta, eof_raises):
+def _enter(p, rank, delta, eof_raises, first_token_not_end=False):
     require("parser_position_non_negative", p.pos >= 0)
     r = remaining(p)
     require("termination_measure_decreases", r < ghost_get("measure_rem") or (r == ghost_get("measure_rem") and rank < ghost_get("measure_rank")))
     pos0 = p.pos
+    located = ghost_get("located_errors")
+    if located:
+        # second contract of every parser function (c_parser.parser_error_location_contract), on scanner-shaped token lists:
+        #   requires  called before the end marker is consumed
+        #   ensures   on normal return the end marker is still not consumed
+        #   raises    ParserSyntaxError carrying a token OF THE LIST (all of which have a position), never the position-less
+        #             end marker Parser.current() makes up beyond the end
+        require("called_before_the_end_marker_is_consumed", p.pos < len(p.tokens))
+        if first_token_not_end:
+            # functions entered on a token their caller has already classified (a keyword, an opcode, an identifier ...): never the end marker
+            require("called_on_a_token_that_is_not_the_end_marker", p.pos < len(p.tokens) - 1)
     adv = fresh_int("advance")
     assume(adv >= 0)
     p.pos = pos0 + adv
     if fresh_int("outcome") == 0:
+        if located:
+            k = fresh_int("error_token_index")
+            assume(0 <= k and k < len(p.tokens))
+            raise ParserSyntaxError("rejected by the callee", p.tokens[k])
         raise ParserSyntaxError("rejected by the callee", p.current())
     assume(adv >= delta)
     if eof_raises:
         assume(pos0 < len(p.tokens))
+    if located:
+        assume(p.pos < len(p.tokens))
 
 
 def _node():
@@ -64,7 +81,7 @@ def parse_expression_list_model(p):
 
 
 def parse_opcode_model(p):
-    _enter(p, 3, 1, False)
+    _enter(p, 3, 1, False, True)
     return _node()
 
 
@@ -74,7 +91,7 @@ def parse_macro_application_model(p):
 
 
 def parse_symbol_affectation_model(p):
-    _enter(p, 2, 3, True)
+    _enter(p, 2, 3, True, True)
     return _node()
 
 
@@ -114,7 +131,7 @@ def parse_macro_model(p):
 
 
 def parse_keyword_model(p):
-    _enter(p, 5, 1, True)
+    _enter(p, 5, 1, True, True)
     return _node()
 
 
